@@ -4,6 +4,7 @@
 package main
 
 import (
+	"bytes"
 	"strings"
 
 	"github.com/chrislusf/seaweedfs/weed/filer"
@@ -56,9 +57,16 @@ func main() {
 			}
 			w.Emit(tr.Ev{"ev": "snap", "got": got})
 		}
+		dump := func() {
+			rules := make([]tr.Ev, 0)
+			for _, l := range fc.ToProto().Locations {
+				rules = append(rules, tr.Ev{"p": strings.Split(l.LocationPrefix, ""), "c": rec(l)})
+			}
+			w.Emit(tr.Ev{"ev": "dump", "rules": rules})
+		}
 		var ops []tr.Ev
 		for _, e := range ex[1:] {
-			if k := tr.S(e, "ev"); k != "snap" && k != "panic" {
+			if k := tr.S(e, "ev"); k != "snap" && k != "panic" && k != "dump" {
 				ops = append(ops, e)
 			}
 		}
@@ -77,6 +85,20 @@ func main() {
 					fc.DeleteLocationConf(str(e["p"]))
 				case "match":
 					e["res"] = rec(fc.MatchStorageRule(str(e["path"])))
+				case "reload":
+					// what fs.configure persists, loaded the way the filer loads filer.conf
+					var buf bytes.Buffer
+					e["err"] = ""
+					if err := fc.ToText(&buf); err != nil {
+						e["err"] = "totext: " + err.Error()
+						break
+					}
+					fc2 := filer.NewFilerConf()
+					if err := fc2.LoadFromBytes(buf.Bytes()); err != nil {
+						e["err"] = "load: " + err.Error()
+						break
+					}
+					fc = fc2
 				default:
 					tr.Fatal("unknown op %v", e["ev"])
 				}
@@ -87,7 +109,7 @@ func main() {
 				break
 			}
 			w.Emit(e)
-			if every && i < len(ops)-1 && tr.S(e, "ev") != "match" {
+			if every && i < len(ops)-1 && tr.S(e, "ev") != "match" && tr.S(e, "ev") != "reload" {
 				if pan := tr.Guard(snap); pan != "" {
 					w.Emit(tr.Ev{"ev": "panic", "op": "snap", "msg": pan})
 					broke = true
@@ -96,7 +118,7 @@ func main() {
 			}
 		}
 		if !broke {
-			if pan := tr.Guard(snap); pan != "" {
+			if pan := tr.Guard(func() { snap(); dump() }); pan != "" {
 				w.Emit(tr.Ev{"ev": "panic", "op": "snap", "msg": pan})
 			}
 		}
